@@ -225,7 +225,8 @@ func (dec *xmlReader) Tag() int {
 		return 0
 	}
 	if strings.HasPrefix(rawTag, "0x") {
-		parsedTag, err := strconv.ParseInt(rawTag[2:], 16, 32)
+		// A tag is a 3 bytes unsigned number
+		parsedTag, err := strconv.ParseUint(rawTag[2:], 16, 24)
 		if err != nil {
 			// TODO: return error
 			return 0
